@@ -715,3 +715,89 @@ def feasible_reach(body, start, unwind=False, max_states=20000):
         for s_ in body.successors(bb, unwind):
             work.append((s_, nxt))
     return reach
+
+
+def paths_reaching(body, target, symbol_of_call, start=0, max_states=20000):
+    """Every acyclic normal-edge path from `start` to block `target`, as the truth values it had to
+    assume for the boolean results of the calls `symbol_of_call(term)` names (a symbol or None).
+    Booleans are followed through copies, `!`, constants and switches.  Returns a list of dicts
+    {symbol: bool}; None if the search was cut short."""
+    out = []
+    work = [(start, {}, {}, frozenset())]
+    n = 0
+    while work:
+        bb, env, asm, seen = work.pop()
+        while True:
+            n += 1
+            if n > max_states:
+                return None
+            if bb in seen:
+                break
+            seen = seen | {bb}
+            if bb == target:
+                out.append(dict(asm))
+                break
+            blk = body.blocks[bb]
+            env = dict(env)
+            for st in blk['stmts']:
+                if st['k'] != 'assign' or st['place']['p']:
+                    continue
+                rv = st['rv']
+                val = None
+                if rv['k'] == 'use':
+                    iv = op_int(rv['op'])
+                    l = op_local(rv['op'])
+                    if iv is not None:
+                        val = ('c', bool(iv))
+                    elif l is not None:
+                        val = env.get(l)
+                elif rv['k'] == 'un' and rv.get('op') == 'Not':
+                    l = op_local(rv['o'])
+                    v = env.get(l) if l is not None else None
+                    if v is not None:
+                        val = ('c', not v[1]) if v[0] == 'c' else ('s', v[1], not v[2])
+                env[st['place']['l']] = val
+            t = blk['term']
+            k = t['k']
+            if k == 'goto':
+                bb = t['t']
+                continue
+            if k in ('drop', 'assert'):
+                bb = t['t']
+                continue
+            if k == 'call':
+                if t['t'] is None:
+                    break
+                if not t['dest']['p']:
+                    s = symbol_of_call(t)
+                    env[t['dest']['l']] = ('s', s, True) if s is not None else None
+                bb = t['t']
+                continue
+            if k == 'switch':
+                l = op_local(t['d'])
+                v = env.get(l) if l is not None else None
+                tg = dict((a, c) for a, c in t['targets'])
+                if v is not None and v[0] == 'c':
+                    bb = tg.get(int(v[1]), t['otherwise'])
+                    continue
+                if v is not None and v[0] == 's':
+                    sym, pos = v[1], v[2]
+                    nxt = []
+                    for truth in (False, True):
+                        if sym in asm and asm[sym] != (truth == pos):
+                            continue
+                        a2 = dict(asm)
+                        a2[sym] = (truth == pos)
+                        nxt.append((tg.get(int(truth), t['otherwise']), dict(env), a2, seen))
+                    if not nxt:
+                        break
+                    work.extend(nxt[1:])
+                    bb, env, asm, seen = nxt[0]
+                    seen = seen - {bb}
+                    continue
+                for a, c in t['targets']:
+                    work.append((c, dict(env), dict(asm), seen))
+                bb = t['otherwise']
+                continue
+            break
+    return out
